@@ -45,6 +45,10 @@
 (*   lookup_cache         responses are served from a per-path cache that  *)
 (*                        is never invalidated (stale beyond the window)   *)
 (*   remove_ignored       a removed / emptied source stays loaded          *)
+(*   contract_without_torn_reads  not a wrong composition but a stricter   *)
+(*                        contract: without the torn-read clause of        *)
+(*                        HeimdallOps the reference composition itself is  *)
+(*                        rejected (why the clause exists)                 *)
 (***************************************************************************)
 EXTENDS HeimdallOps
 
@@ -53,6 +57,7 @@ CONSTANTS Srcs,       \* source names, e.g. {"s1", "s2"}
           MaxEnv,     \* number of environment steps
           MaxVer,     \* valid versions per source
           Segs,       \* last path segments requested
+          EnvClasses, \* what the environment may write: subset of {"valid", "empty", "invalid", "absent"}
           Stamped     \* the observer stamps its events with a counter (see above)
 
 VARIABLES content,    \* source -> [c, rules]: what the source holds
@@ -79,8 +84,9 @@ vars == <<content, nver, budget, pending, seen, worker, stored, active, repoOp, 
 NWorkers == IF Mutant = "concurrent_handlers" THEN 2 ELSE 1
 Workers == 1..NWorkers
 IdleW == [pc |-> "idle", src |-> "", view |-> None, vidx |-> 0]
+ViewOf(x) == IF P!IsValid(x.c) THEN Version(x.c, x.rules) ELSE [c |-> x.c, rules |-> <<>>, vs |-> <<>>]
 IdleR == [pc |-> "idle", src |-> "", seg |-> "", tag |-> "", start |-> 0, flk |-> 0, pm |-> 0, pt |-> 0, t |-> 0, saw |-> {}]
-Absent == [c |-> "absent", rules |-> <<>>]
+Absent == [c |-> "absent", rules |-> <<>>, mode |-> "none"]
 
 SrcSeq == SetToSeq(Srcs)
 Tick == IF Stamped THEN clock + 1 ELSE 0
@@ -115,17 +121,22 @@ Saw(s, a) == [r \in Reqs |-> IF req[r].pc \in {"started", "looked"} /\ req[r].sr
                              THEN [req[r] EXCEPT !.saw = @ \cup {a}] ELSE req[r]]
 
 (* ------------------------------------------------------------ environment *)
-(* a truncate-then-write of a file is two steps: "empty", then the content *)
-Write(s, c) ==
+(* a truncate-then-write of a file is two steps: "empty" (mode truncate), then the content  *)
+(* (mode inplace); otherwise a file is replaced by renaming a complete file over it, an      *)
+(* endpoint's document is swapped                                                            *)
+Write(s, c, m) ==
   /\ budget > 0
-  /\ CASE c = "valid"  -> nver[s] < MaxVer
-       [] c = "absent" -> content[s].c # "absent"
-       [] OTHER        -> content[s].c # c
+  /\ CASE c = "valid"  -> /\ nver[s] < MaxVer
+                          /\ IF m = "inplace" THEN PKind = "fs" /\ content[s].mode = "truncate" ELSE m = "atomic"
+       [] c = "absent" -> content[s].c # "absent" /\ m = "atomic"
+       [] c = "empty"  -> content[s].c # c /\ m = (IF PKind = "fs" THEN "truncate" ELSE "atomic")
+       [] OTHER        -> content[s].c # c /\ m = "atomic"
   /\ LET k   == nver[s] + 1
-         new == IF c = "valid" THEN [c |-> VerName(k), rules |-> VerRules(k)] ELSE [c |-> c, rules |-> <<>>]
+         new == IF c = "valid" THEN [c |-> VerName(k), rules |-> VerRules(k), mode |-> m]
+                ELSE [c |-> c, rules |-> <<>>, mode |-> m]
      IN /\ content' = [content EXCEPT ![s] = new]
         /\ nver' = IF c = "valid" THEN [nver EXCEPT ![s] = k] ELSE nver
-        /\ W' = [W EXCEPT ![s] = Append(@, [c |-> new.c, rules |-> new.rules, seq |-> Tick])]
+        /\ W' = [W EXCEPT ![s] = Append(@, [c |-> new.c, rules |-> new.rules, mode |-> m, seq |-> Tick])]
   /\ clock' = Tick
   /\ budget' = budget - 1
   /\ seen' = [seen EXCEPT ![s] = FALSE]
@@ -140,8 +151,21 @@ Fetch(w, s) ==
   /\ worker[w].pc = "idle"
   /\ IF PKind = "fs" THEN pending # <<>> /\ s = Head(pending) /\ pending' = Tail(pending)
      ELSE ~Busy(s) /\ UNCHANGED pending                   \* one scheduler job per endpoint, singleton
-  /\ worker' = [worker EXCEPT ![w] = [pc |-> "fetched", src |-> s, view |-> content[s], vidx |-> Len(W[s])]]
+  /\ worker' = [worker EXCEPT ![w] = [pc |-> "fetched", src |-> s, view |-> ViewOf(content[s]), vidx |-> Len(W[s])]]
   /\ UNCHANGED <<content, nver, budget, seen, stored, active, repoOp, req, cache, clock, W, A, St, hiM, bad,
+                 actIdx, hiT, viol>>
+
+(* torn read: the worker has read a complete version, the file is rewritten in place with a *)
+(* version that appends rules, the worker reads on and gets the appended rules               *)
+TearFetch(w) ==
+  /\ worker[w].pc = "fetched"
+  /\ LET s == worker[w].src IN
+     /\ content[s].mode = "inplace" /\ P!IsValid(content[s].c)
+     /\ worker[w].vidx < Len(W[s])
+     /\ worker[w].view = Version(worker[w].view.c, worker[w].view.rules)      \* not torn already
+     /\ P!IsValid(worker[w].view.c) /\ IsProperPrefix(worker[w].view.rules, content[s].rules)
+     /\ worker' = [worker EXCEPT ![w].view = Torn(worker[w].view, content[s]), ![w].vidx = Len(W[s])]
+  /\ UNCHANGED <<content, nver, budget, pending, seen, stored, active, repoOp, req, cache, clock, W, A, St, hiM, bad,
                  actIdx, hiT, viol>>
 
 SetActive(s, a, idx) ==
@@ -170,13 +194,13 @@ Apply(w) ==
               \* first half of a non-atomic update: the old rules are gone, the new not yet there
               SetActive(s, None, actIdx[s]) /\ repoOp' = s /\ UNCHANGED <<worker, seen>>
            ELSE
-              SetActive(s, [c |-> v.c, rules |-> v.rules], worker[w].vidx) /\ UNCHANGED repoOp /\ WorkerDone(w, s)
+              SetActive(s, v, worker[w].vidx) /\ UNCHANGED repoOp /\ WorkerDone(w, s)
   /\ UNCHANGED <<content, nver, budget, pending, cache, clock, W, A, St, hiM, bad, hiT, viol>>
 
 (* second half of the non-atomic update (mutant) *)
 FinishUpdate(w) ==
   /\ repoOp # "idle" /\ worker[w].pc = "fetched" /\ worker[w].src = repoOp
-  /\ SetActive(repoOp, [c |-> worker[w].view.c, rules |-> worker[w].view.rules], worker[w].vidx)
+  /\ SetActive(repoOp, worker[w].view, worker[w].vidx)
   /\ WorkerDone(w, repoOp)
   /\ repoOp' = "idle"
   /\ UNCHANGED <<content, nver, budget, pending, stored, cache, clock, W, A, St, hiM, bad, hiT, viol>>
@@ -249,9 +273,9 @@ Ack(s) ==
                  actIdx, hiT, viol>>
 
 Next ==
-  \/ \E s \in Srcs, c \in {"valid", "empty", "invalid", "absent"} : Write(s, c)
+  \/ \E s \in Srcs, c \in EnvClasses, m \in {"atomic", "truncate", "inplace"} : Write(s, c, m)
   \/ \E w \in Workers, s \in Srcs : Fetch(w, s)
-  \/ \E w \in Workers : Apply(w) \/ FinishUpdate(w)
+  \/ \E w \in Workers : Apply(w) \/ FinishUpdate(w) \/ TearFetch(w)
   \/ \E r \in Reqs, s \in Srcs, seg \in Segs : ReqStart(r, s, seg)
   \/ \E r \in Reqs : ReqLookup(r) \/ ReqEnd(r)
   \/ \E s \in Srcs : Ack(s)
